@@ -3,6 +3,7 @@ package props
 import (
 	"bytes"
 	"encoding/json"
+	"errors"
 	"fmt"
 	"reflect"
 	"sort"
@@ -67,10 +68,58 @@ type c15Field struct {
 	name      string
 	key       int64
 	jsonName  string
-	mandatory bool
+	mandatory bool                        // no omitempty in the cbor tag (and in the json tag unless jsonMand says otherwise)
 	set       func(root any, variant int) // sets the field to a value
 	cborVal   func(variant int) *mcbor.Node
 	jsonVal   func(variant int) any
+	jsonMand  *bool // omitempty may be given in one tag only
+}
+
+func (f c15Field) mandJSON() bool {
+	if f.jsonMand != nil {
+		return *f.jsonMand
+	}
+	return f.mandatory
+}
+
+// omitempty in one of the two tags only
+type c15Asym struct {
+	A *int64  `cbor:"1,keyasint,omitempty" json:"a"`
+	B *string `cbor:"2,keyasint" json:"b,omitempty"`
+}
+
+// an embedded interface holding a struct BY VALUE (serialise only: it cannot be populated in place)
+type c15ValImpl struct {
+	B *string `cbor:"2,keyasint,omitempty" json:"b,omitempty"`
+	C *[]byte `cbor:"-3,keyasint,omitempty" json:"c,omitempty"`
+}
+
+func (c15ValImpl) c15() {}
+
+// a field whose own marshaller refuses
+type c15Refusing struct{ Refuse bool }
+
+func (f c15Refusing) MarshalCBOR() ([]byte, error) {
+	if f.Refuse {
+		return nil, errors.New("refused")
+	}
+	return []byte{0x05}, nil
+}
+func (f c15Refusing) MarshalJSON() ([]byte, error) {
+	if f.Refuse {
+		return nil, errors.New("refused")
+	}
+	return []byte("5"), nil
+}
+
+type c15WithRefusing struct {
+	A *int64       `cbor:"1,keyasint" json:"a"`
+	X *c15Refusing `cbor:"9,keyasint,omitempty" json:"x,omitempty"`
+	B *string      `cbor:"2,keyasint,omitempty" json:"b,omitempty"`
+}
+type c15WithRefusingEmb struct {
+	c15WithRefusing
+	F *int64 `cbor:"256,keyasint,omitempty" json:"f,omitempty"`
 }
 
 func i64v(v int) int64    { return []int64{0, -1, 1 << 40}[v%3] }
@@ -115,46 +164,70 @@ func allOptOf(root any) *c15AllOptional {
 }
 
 var flatFields = []c15Field{
-	{"A", 1, "a", true, func(r any, v int) { x := i64v(v); flatOf(r).A = &x }, func(v int) *mcbor.Node { return mcbor.I(i64v(v)) }, func(v int) any { return i64v(v) }},
-	{"B", 2, "b", false, func(r any, v int) { x := strv(v); flatOf(r).B = &x }, func(v int) *mcbor.Node { return mcbor.T(strv(v)) }, func(v int) any { return strv(v) }},
-	{"C", -3, "c", false, func(r any, v int) { x := bytv(v); flatOf(r).C = &x }, func(v int) *mcbor.Node { return mcbor.B(bytv(v)) }, func(v int) any { return b64(bytv(v)) }},
-	{"D", 24, "d", false, func(r any, v int) { x := u16v(v); flatOf(r).D = &x }, func(v int) *mcbor.Node { return mcbor.U(uint64(u16v(v))) }, func(v int) any { return u16v(v) }},
-	{"E", -25, "e", false, func(r any, v int) { x := v%2 == 0; flatOf(r).E = &x }, func(v int) *mcbor.Node { return mcbor.Bool(v%2 == 0) }, func(v int) any { return v%2 == 0 }},
+	{"A", 1, "a", true, func(r any, v int) { x := i64v(v); flatOf(r).A = &x }, func(v int) *mcbor.Node { return mcbor.I(i64v(v)) }, func(v int) any { return i64v(v) }, nil},
+	{"B", 2, "b", false, func(r any, v int) { x := strv(v); flatOf(r).B = &x }, func(v int) *mcbor.Node { return mcbor.T(strv(v)) }, func(v int) any { return strv(v) }, nil},
+	{"C", -3, "c", false, func(r any, v int) { x := bytv(v); flatOf(r).C = &x }, func(v int) *mcbor.Node { return mcbor.B(bytv(v)) }, func(v int) any { return b64(bytv(v)) }, nil},
+	{"D", 24, "d", false, func(r any, v int) { x := u16v(v); flatOf(r).D = &x }, func(v int) *mcbor.Node { return mcbor.U(uint64(u16v(v))) }, func(v int) any { return u16v(v) }, nil},
+	{"E", -25, "e", false, func(r any, v int) { x := v%2 == 0; flatOf(r).E = &x }, func(v int) *mcbor.Node { return mcbor.Bool(v%2 == 0) }, func(v int) any { return v%2 == 0 }, nil},
 }
 var emb1Fields = []c15Field{
-	{"F", 256, "f", false, func(r any, v int) { x := i64v(v + 1); emb1Of(r).F = &x }, func(v int) *mcbor.Node { return mcbor.I(i64v(v + 1)) }, func(v int) any { return i64v(v + 1) }},
-	{"G", -257, "g", true, func(r any, v int) { x := strv(v + 1); emb1Of(r).G = &x }, func(v int) *mcbor.Node { return mcbor.T(strv(v + 1)) }, func(v int) any { return strv(v + 1) }},
+	{"F", 256, "f", false, func(r any, v int) { x := i64v(v + 1); emb1Of(r).F = &x }, func(v int) *mcbor.Node { return mcbor.I(i64v(v + 1)) }, func(v int) any { return i64v(v + 1) }, nil},
+	{"G", -257, "g", true, func(r any, v int) { x := strv(v + 1); emb1Of(r).G = &x }, func(v int) *mcbor.Node { return mcbor.T(strv(v + 1)) }, func(v int) any { return strv(v + 1) }, nil},
 }
 var emb2Fields = []c15Field{
-	{"H", 65536, "h", false, func(r any, v int) { x := bytv(v + 1); r.(*c15Emb2).H = &x }, func(v int) *mcbor.Node { return mcbor.B(bytv(v + 1)) }, func(v int) any { return b64(bytv(v + 1)) }},
+	{"H", 65536, "h", false, func(r any, v int) { x := bytv(v + 1); r.(*c15Emb2).H = &x }, func(v int) *mcbor.Node { return mcbor.B(bytv(v + 1)) }, func(v int) any { return b64(bytv(v + 1)) }, nil},
 }
 var allOptFields = []c15Field{
-	{"B", 2, "b", false, func(r any, v int) { x := strv(v); allOptOf(r).B = &x }, func(v int) *mcbor.Node { return mcbor.T(strv(v)) }, func(v int) any { return strv(v) }},
-	{"C", -3, "c", false, func(r any, v int) { x := bytv(v); allOptOf(r).C = &x }, func(v int) *mcbor.Node { return mcbor.B(bytv(v)) }, func(v int) any { return b64(bytv(v)) }},
+	{"B", 2, "b", false, func(r any, v int) { x := strv(v); allOptOf(r).B = &x }, func(v int) *mcbor.Node { return mcbor.T(strv(v)) }, func(v int) any { return strv(v) }, nil},
+	{"C", -3, "c", false, func(r any, v int) { x := bytv(v); allOptOf(r).C = &x }, func(v int) *mcbor.Node { return mcbor.B(bytv(v)) }, func(v int) any { return b64(bytv(v)) }, nil},
 }
 var anonFields = []c15Field{
-	{"C15Bytes", 7, "named", false, func(r any, v int) { r.(*c15AnonNonStruct).C15Bytes = C15Bytes(bytvNE(v)) }, func(v int) *mcbor.Node { return mcbor.B(bytvNE(v)) }, func(v int) any { return b64(bytvNE(v)) }},
-	{"A", 1, "a", true, func(r any, v int) { x := i64v(v); r.(*c15AnonNonStruct).A = &x }, func(v int) *mcbor.Node { return mcbor.I(i64v(v)) }, func(v int) any { return i64v(v) }},
+	{"C15Bytes", 7, "named", false, func(r any, v int) { r.(*c15AnonNonStruct).C15Bytes = C15Bytes(bytvNE(v)) }, func(v int) *mcbor.Node { return mcbor.B(bytvNE(v)) }, func(v int) any { return b64(bytvNE(v)) }, nil},
+	{"A", 1, "a", true, func(r any, v int) { x := i64v(v); r.(*c15AnonNonStruct).A = &x }, func(v int) *mcbor.Node { return mcbor.I(i64v(v)) }, func(v int) any { return i64v(v) }, nil},
+}
+var tr, fa = true, false
+var asymFields = []c15Field{
+	{"A", 1, "a", false, func(r any, v int) { x := i64v(v); r.(*c15Asym).A = &x }, func(v int) *mcbor.Node { return mcbor.I(i64v(v)) }, func(v int) any { return i64v(v) }, &tr},
+	{"B", 2, "b", true, func(r any, v int) { x := strv(v); r.(*c15Asym).B = &x }, func(v int) *mcbor.Node { return mcbor.T(strv(v)) }, func(v int) any { return strv(v) }, &fa},
+}
+var valImplFields = []c15Field{
+	{"B", 2, "b", false, func(r any, v int) {
+		x := strv(v)
+		h := r.(*c15IfaceEmb)
+		vi := h.C15Iface.(c15ValImpl)
+		vi.B = &x
+		h.C15Iface = vi
+	}, func(v int) *mcbor.Node { return mcbor.T(strv(v)) }, func(v int) any { return strv(v) }, nil},
+	{"C", -3, "c", false, func(r any, v int) {
+		x := bytv(v)
+		h := r.(*c15IfaceEmb)
+		vi := h.C15Iface.(c15ValImpl)
+		vi.C = &x
+		h.C15Iface = vi
+	}, func(v int) *mcbor.Node { return mcbor.B(bytv(v)) }, func(v int) any { return b64(bytv(v)) }, nil},
 }
 var ifaceOwnFields = []c15Field{
-	{"F", 256, "f", false, func(r any, v int) { x := i64v(v + 1); r.(*c15IfaceEmb).F = &x }, func(v int) *mcbor.Node { return mcbor.I(i64v(v + 1)) }, func(v int) any { return i64v(v + 1) }},
+	{"F", 256, "f", false, func(r any, v int) { x := i64v(v + 1); r.(*c15IfaceEmb).F = &x }, func(v int) *mcbor.Node { return mcbor.I(i64v(v + 1)) }, func(v int) any { return i64v(v + 1) }, nil},
 }
 
 type c15Shape struct {
-	name     string
-	fresh    func() any
-	fields   []c15Field // in the order the serialiser must emit them (outer fields first, then embedded)
-	embedded bool
+	name       string
+	fresh      func() any
+	fields     []c15Field // in the order the serialiser must emit them (outer fields first, then embedded)
+	embedded   bool
+	noPopulate bool
 }
 
 var c15Shapes = []c15Shape{
-	{"flat", func() any { return &c15Flat{Z: "never"} }, flatFields, false},
-	{"all-optional", func() any { return &c15AllOptional{Z: "never"} }, allOptFields, false},
-	{"embedded-1", func() any { return &c15Emb1{} }, append(append([]c15Field{}, emb1Fields...), flatFields...), true},
-	{"embedded-2", func() any { return &c15Emb2{} }, append(append(append([]c15Field{}, emb2Fields...), emb1Fields...), flatFields...), true},
-	{"iface-holding-struct", func() any { return &c15IfaceEmb{C15Iface: &c15AllOptional{}} }, append(append([]c15Field{}, ifaceOwnFields...), allOptFields...), true},
-	{"iface-nil", func() any { return &c15IfaceEmb{} }, ifaceOwnFields, true},
-	{"anonymous-non-struct", func() any { return &c15AnonNonStruct{} }, anonFields, false},
+	{"flat", func() any { return &c15Flat{Z: "never"} }, flatFields, false, false},
+	{"all-optional", func() any { return &c15AllOptional{Z: "never"} }, allOptFields, false, false},
+	{"embedded-1", func() any { return &c15Emb1{} }, append(append([]c15Field{}, emb1Fields...), flatFields...), true, false},
+	{"embedded-2", func() any { return &c15Emb2{} }, append(append(append([]c15Field{}, emb2Fields...), emb1Fields...), flatFields...), true, false},
+	{"iface-holding-struct", func() any { return &c15IfaceEmb{C15Iface: &c15AllOptional{}} }, append(append([]c15Field{}, ifaceOwnFields...), allOptFields...), true, false},
+	{"iface-nil", func() any { return &c15IfaceEmb{} }, ifaceOwnFields, true, false},
+	{"anonymous-non-struct", func() any { return &c15AnonNonStruct{} }, anonFields, false, false},
+	{"omitempty-in-one-tag-only", func() any { return &c15Asym{} }, asymFields, false, false},
+	{"iface-holding-struct-by-value", func() any { return &c15IfaceEmb{C15Iface: c15ValImpl{}} }, append(append([]c15Field{}, ifaceOwnFields...), valImplFields...), true, true},
 }
 
 func c15Eval(c *choice.Ctx, st *Stats, sh c15Shape, mask int, variant int, perm int) {
@@ -169,11 +242,15 @@ func c15Eval(c *choice.Ctx, st *Stats, sh c15Shape, mask int, variant int, perm 
 			wantC = append(wantC, [2]*mcbor.Node{mcbor.I(f.key), f.cborVal(variant + i)})
 			wantJ[f.jsonName] = f.jsonVal(variant + i)
 			order = append(order, f.jsonName)
-		} else if f.mandatory {
+		} else {
 			// a nil non-omitempty pointer is emitted as null
-			wantC = append(wantC, [2]*mcbor.Node{mcbor.I(f.key), mcbor.Null()})
-			wantJ[f.jsonName] = nil
-			order = append(order, f.jsonName)
+			if f.mandatory {
+				wantC = append(wantC, [2]*mcbor.Node{mcbor.I(f.key), mcbor.Null()})
+			}
+			if f.mandJSON() {
+				wantJ[f.jsonName] = nil
+				order = append(order, f.jsonName)
+			}
 		}
 	}
 	st.StateStr(fmt.Sprint(tag, mask, variant, perm))
@@ -219,9 +296,12 @@ func c15Eval(c *choice.Ctx, st *Stats, sh c15Shape, mask int, variant int, perm 
 	if z, ok := y.(*c15AllOptional); ok {
 		z.Z = ""
 	}
-	perr = encoding.PopulateStructFromCBOR(extDM, out, y)
+	if !sh.noPopulate {
+		perr = encoding.PopulateStructFromCBOR(extDM, out, y)
+	}
 	st.Trans.Add(1)
-	if perr != nil {
+	if sh.noPopulate {
+	} else if perr != nil {
 		sig := "C15:cbor-populate-error:" + tag
 		if len(n.Pairs) == 0 {
 			sig = "C15:empty-map-rejected:cbor"
@@ -240,6 +320,9 @@ func c15Eval(c *choice.Ctx, st *Stats, sh c15Shape, mask int, variant int, perm 
 	}
 	// a missing non-optional key is an error; a duplicate key is an error
 	for i, p := range n.Pairs {
+		if sh.noPopulate {
+			break
+		}
 		k, _ := p[0].Int()
 		for _, f := range sh.fields {
 			if f.key == k && f.mandatory {
@@ -285,6 +368,10 @@ func c15Eval(c *choice.Ctx, st *Stats, sh c15Shape, mask int, variant int, perm 
 	if z, ok := y.(*c15AllOptional); ok {
 		z.Z = ""
 	}
+	if sh.noPopulate {
+		st.Outcome("checked:" + tag)
+		return
+	}
 	if err := encoding.PopulateStructFromJSON(jout, y); err != nil {
 		sig := "C15:json-populate-error:" + tag
 		c.Failf(sig, "populating from own JSON fails: %v (%s, %s)", err, jout, desc)
@@ -300,7 +387,7 @@ func c15Eval(c *choice.Ctx, st *Stats, sh c15Shape, mask int, variant int, perm 
 		}
 	}
 	for _, f := range sh.fields {
-		if _, ok := got[f.jsonName]; ok && f.mandatory {
+		if _, ok := got[f.jsonName]; ok && f.mandJSON() {
 			m := map[string]any{}
 			for k, v := range got {
 				if k != f.jsonName {
@@ -536,6 +623,31 @@ func init() {
 			c15stats.Outcome("returned-bytes-stable")
 		}, nil
 	}
+	// a serialisation that fails half-way (a field's own marshaller refuses) leaves nothing behind (single goroutine)
+	Scenarios["c15.after-failed-serialise"] = func() (choice.Scenario, func() any) {
+		return func(c *choice.Ctx) {
+			one, str := int64(1), "b"
+			var bad any
+			if c.Choose("failing-shape", 2) == 0 {
+				bad = &c15WithRefusing{A: &one, X: &c15Refusing{Refuse: true}, B: &str}
+			} else {
+				bad = &c15WithRefusingEmb{c15WithRefusing: c15WithRefusing{A: &one, X: &c15Refusing{Refuse: true}, B: &str}, F: &one}
+			}
+			var err error
+			js := c.Choose("failing-format", 2) == 1
+			if js {
+				_, err = encoding.SerializeStructToJSON(bad)
+			} else {
+				_, err = encoding.SerializeStructToCBOR(extEM, bad)
+			}
+			if err == nil {
+				c.Failf(fmt.Sprintf("C15:refusing-field-ignored:json=%v", js), "a field whose marshaller returns an error was serialised without error")
+			}
+			sh := c15Shapes[c.Choose("shape", len(c15Shapes))]
+			mask := c.Choose("fields-set", 1<<len(sh.fields))
+			c15Eval(c, c15stats, sh, mask, c.Choose("values", 3), 0)
+		}, nil
+	}
 	Scenarios["c15.synthetic.quick"] = mkSyn(sizesQuick)
 	Scenarios["c15.synthetic.thorough"] = mkSyn(sizesThorough)
 	// extension profiles built on each base profile: round trip through their codec methods
@@ -609,6 +721,7 @@ func init() {
 		c15stats = NewStats()
 		dl := deadline(r, 55*time.Second, 20*time.Minute)
 		exploreChoiceOpts(r, "c15.returned-bytes", -1, dl, 1)
+		exploreChoiceOpts(r, "c15.after-failed-serialise", -1, dl, 1)
 		exploreChoiceOpts(r, "c15.shapes", -1, dl, hookWorkers())
 		if thorough(r) {
 			exploreChoice(r, "c15.synthetic.thorough", -1, dl)
